@@ -180,8 +180,7 @@ func runReplays(t *testing.T, prop string, fn func(variant string, raw json.RawM
 			// keep the original path visible: the driver reports it as the replay
 			fmt.Printf("REPLAY-FAILED property=%s file=%s out=%s\n", prop, p, out)
 			t.Errorf("replay %s violates %s:%s", p, prop, f.String())
-			// one fail file per process: stop at the first failing replay
-			return
+			vstat.NextFailure()
 		}
 	}
 }
